@@ -889,12 +889,8 @@ func replaceRange(line *spanLine, x int, n int, insert Span, mode TextReadMode) 
 			line.width = totalWidth - n + insert.Width
 			return
 		}
-		// Compare styles
-		spFG, _, _ := sp.Style.GetColor(ComponentFG)
-		insertFG, _, _ := insert.Style.GetColor(ComponentFG)
-		spBG, _, _ := sp.Style.GetColor(ComponentBG)
-		insertBG, _, _ := insert.Style.GetColor(ComponentBG)
-		if insert.Width == n && spFG == insertFG && spBG == insertBG {
+		// Fast paths below keep the existing span, so the styles must be identical.
+		if insert.Width == n && sp.Style == insert.Style {
 			if sp.Text == "" && insert.Text == "" && sp.Rune == insert.Rune {
 				return
 			}
